@@ -449,6 +449,8 @@ def check_after_crash(cfg, ref, run, si, viol, stats, sig):
         for fn in sorted(files):
             if not (fn.startswith("case_") and fn.endswith("_result.pickle")):
                 continue
+            if os.path.relpath(os.path.join(root, fn), out_dir) not in set(run.get("disk_written", [])):
+                continue  # a leftover of an earlier run (stale directory), not something this run stored
             oc["C1_crash_reestimate"] = oc.get("C1_crash_reestimate", 0) + 1
             path = os.path.join(root, fn)
             try:
@@ -470,7 +472,11 @@ def check_after_crash(cfg, ref, run, si, viol, stats, sig):
                 viol.append({"oracle": "C1_crash_reestimate", "what": f"schedule {si}: after {run['crash']}, re-estimating the surviving {os.path.relpath(path, out_dir)} gives estimates that differ from the serial run at {d[0]} (max abs diff {d[2]})",
                              "detail": {"schedule": si, "crash": run["crash"], "field": d[0]}, "signature": dict(sig, oracle="C1_crash_reestimate")})
                 return
-    # whole-directory re-estimation: may raise, may not invent different numbers
+    # whole-directory re-estimation: may raise, may not invent different numbers (only judged when every result file in the
+    # directory was stored by this run: leftovers of an earlier run legitimately carry that run's numbers)
+    all_cases = [os.path.relpath(os.path.join(r_, f_), out_dir) for r_, _, fs in os.walk(out_dir) for f_ in fs if f_.startswith("case_") and f_.endswith("_result.pickle")]
+    if any(p_ not in set(run.get("disk_written", [])) for p_ in all_cases):
+        return
     out2 = tempfile.mkdtemp(prefix="poolsim-crash-re-", dir=env.scratch_root())
     try:
         re = qflow.re_estimate_test_settings(out_dir, out2, pdf_mode="none", exec_sim_check=copy.deepcopy(cfg.get("exec_sim_check")))
